@@ -173,6 +173,31 @@ catalogue! {
     model = |o| o.map_or(true, |x| x <= 9);
     class = |_s| "inside";
 
+    // ---- Arbitrary next to Default (`default = ...`) and the other derives
+    #[nutype(sanitize(trim), validate(not_empty, len_char_max = 20), default = "Anonymous", derive(Debug, Clone, PartialEq, Default, Arbitrary))]
+    struct StrTrimDefault(String);
+    family = "string";
+    model = |s| { let n = s.chars().count(); n >= 1 && n <= 20 && s.trim() == s };
+    class = |s| str_class(s, Some(1), Some(20));
+
+    #[nutype(sanitize(trim, lowercase), validate(len_char_min = 2, len_char_max = 4), default = "abcd", derive(Debug, Clone, PartialEq, Eq, Hash, Display, FromStr, TryFrom, Into, AsRef, Deref, Default, Arbitrary))]
+    struct StrTrimLowerDefault(String);
+    family = "string";
+    model = |s| { let n = s.chars().count(); n >= 2 && n <= 4 && s.trim() == s && s.to_lowercase() == *s };
+    class = |s| str_class(s, Some(2), Some(4));
+
+    #[nutype(validate(greater_or_equal = 10, less = 20), default = 15, derive(Debug, Clone, Copy, PartialEq, Eq, PartialOrd, Ord, Hash, Display, FromStr, TryFrom, Into, Default, Arbitrary))]
+    struct I16Default(i16);
+    family = "integer";
+    model = |x| *x >= 10 && *x < 20;
+    class = |s| class_num_str(s, Some(10.0), Some(20.0));
+
+    #[nutype(validate(finite, greater = 0.0, less_or_equal = 1.0), default = 0.5, derive(Debug, Clone, Copy, PartialEq, PartialOrd, Display, FromStr, TryFrom, Into, Default, Arbitrary))]
+    struct F64Default(f64);
+    family = "float";
+    model = |x| x.is_finite() && *x > 0.0 && *x <= 1.0;
+    class = |s| class_num_str(s, Some(0.0), Some(1.0));
+
     // ---- `finite` with an infinite constant as a bound
     #[nutype(validate(finite, greater_or_equal = f64::NEG_INFINITY, less_or_equal = 0.0), derive(Debug, Arbitrary))]
     struct F64FinGeNegInfLe(f64);
